@@ -13,7 +13,7 @@ import (
 
 // C09 — commands run exactly once and only after a fully successful parse.
 
-var c09Extra = [][]string{{"--unk"}, {"-p=1"}, {"--help"}, {"-h"}, {"w1"}, {"7"}, {"--flaga=x"}, {"--"}}
+var c09Extra = [][]string{{"--unk"}, {"-p=1"}, {"--help"}, {"-h"}, {"w1"}, {"7"}, {"--flaga=x"}, {"--"}, {"-hz"}}
 
 var c09Cache = map[string]*treeDecl{}
 var c09Shapes3, c09Shapes4 = treeShapes(3), treeShapes(4)
@@ -48,7 +48,7 @@ func init() {
 					ps = 1
 				}
 			}
-			td = buildTree(par, 0, om, 0, false, true, rq, ps, hm, extra == 2, extra == 3)
+			td = buildTree(par, 0, om, 0, false, true, rq, ps, hm, extra == 2, extra == 3, 0)
 			if td != nil && extra == 1 {
 				td.d.Options = flags.HelpFlag | flags.PassDoubleDash | flags.IgnoreUnknown
 			}
@@ -199,7 +199,7 @@ func init() {
 		Rule: "every command tree with <= 3 (quick) / <= 4 (thorough) commands and depth <= 3 with an executable command at every node, HelpFlag set; one deviation from the plain tree at a time: " +
 			"subcommands-optional on any subset of nodes incl. the parser, a required option on any node, required positionals on any node, any subset of commands hidden, IgnoreUnknown set in addition (together with an int positional), the parser's flag in a group added after the commands and after a parse that selected each of them, an int option of the parser whose environment default does not convert (together with an optional int positional); " +
 			"x {Execute, CommandHandler, completion mode} x {command succeeds, command returns an error} x every sequence of <= 3 tokens (<= 4 on trees of <= 2 commands quick / <= 3 commands thorough) over command names, every node's flag and the fault tokens " +
-			"{unknown option, argument to a flag, --help, -h, unknown word, a word and a number (the required positional is an int on some nodes: conversion faults, also after the -- terminator)}; this contains every single fault at every position of every valid vector of that length; oracle = CLM verdict vs call log",
+			"{unknown option, argument to a flag, --help, -h, -h followed by an unknown character in one cluster, unknown word, a word and a number (the required positional is an int on some nodes: conversion faults, also after the -- terminator)}; this contains every single fault at every position of every valid vector of that length; oracle = CLM verdict vs call log",
 		Assumptions:  []string{"when no command is active there is nothing to Execute; a CommandHandler is still called once with a nil command (as its documentation says)"},
 		RequiredHits: []string{"completion-mode", "clean|Execute|calls=1", "clean|CommandHandler|calls=1", "clean|Execute|calls=0", "error-passed-through", "fault|help", "fault|unknown flag", "fault|required", "fault|command required", "fault|unknown command", "fault|no argument for bool", "bad-environment-default"},
 		Bound:        [2]string{"token sequences <= 3, trees <= 3 commands, <= 1 declaration deviation", "token sequences <= 4 (trees <= 3 commands) / <= 3 (4 commands), <= 1 declaration deviation"},
